@@ -164,7 +164,8 @@ def inlinable(ctx, f: FunctionInfo, call: ast.Call, stack=(), keep=()) -> Option
     if len(targets) != 1 or how in ("by-name", "constructor", "external") or how.startswith("unresolved"):
         return None
     g = targets[0]
-    if g in stack or g is f or g == f or not g.name.startswith("_") or g.name.startswith("__") or g.name in keep:
+    forced = {k[1:] for k in keep if k.startswith("+")}          # "+name": splice this public helper too (a rule asked for it by name)
+    if g in stack or g is f or g == f or not (g.name.startswith("_") or g.name in forced) or g.name.startswith("__") or g.name in keep:
         return None
     if g.is_property or g.is_classmethod or g.parent is not None:
         return None
@@ -183,8 +184,14 @@ def inlinable(ctx, f: FunctionInfo, call: ast.Call, stack=(), keep=()) -> Option
     if not returns_structured(body):
         return None
     a = g.node.args
-    if a.vararg or a.kwarg:
+    if a.vararg:
         return None
+    if a.kwarg:
+        # a catch-all `**kwargs` the body never reads, called with named parameters only, binds nothing
+        named = {x.arg for x in a.posonlyargs + a.args + a.kwonlyargs}
+        if any(isinstance(n, ast.Name) and n.id == a.kwarg.arg for b in g.node.body for n in ast.walk(b)) \
+                or any(k.arg not in named for k in call.keywords):
+            return None
     if any(isinstance(x, ast.Starred) for x in call.args) or any(k.arg is None for k in call.keywords):
         return None
     return g
@@ -398,7 +405,8 @@ class _Inliner:
 
 
 def inlined(ctx, f: FunctionInfo, depth: int = 3, _stack=(), keep=()) -> FunctionInfo:
-    """`keep`: names of helpers that must stay calls (anchors a rule wants to see)."""
+    """`keep`: names of helpers that must stay calls (anchors a rule wants to see); an entry "+name" asks for the opposite: splice the
+    PUBLIC helper `name` as well (only private helpers are spliced by default)."""
     cache = ctx.__dict__.setdefault("_inlined_cache", {})
     key = (f.qual, depth, tuple(sorted(keep)))
     if key in cache and not isinstance(f, InlinedFunction):
